@@ -398,6 +398,24 @@ pub fn hand(b: &mut Builder) {
     b.program("enum_unit_lower_validate", e.clone());
     b.program("hashmap_enum_unit_lower", Desc::HashMap(KeyTy::Str, bx(e)));
 
+    // a variant renamed to its own identifier is exempt from rename_all
+    let variants = vec![
+        VariantDef { ident: "FastLane".into(), rename: None, rename_all: None, fields: None },
+        VariantDef { ident: "SlowLane".into(), rename: Some("SlowLane".into()), rename_all: None, fields: None },
+        VariantDef { ident: "Off".into(), rename: Some("OFF".into()), rename_all: None, fields: None },
+    ];
+    let e = b.add_type("HUnitSelfRename", TypeKind::UnitEnum { rename_all: Some(RenameAll::Camel), validate: Validate::No, variants: variants.clone() });
+    b.program("enum_unit_self_rename", e);
+    let mut vs = variants;
+    let (f1, f2) = (b.f("user_name"), b.f("user_name"));
+    vs[0].fields = Some(vec![f1]);
+    vs[1].fields = Some(vec![f2]);
+    let e = b.add_type(
+        "HTaggedSelfRename",
+        TypeKind::Tagged { tag: "event".into(), rename_all: Some(RenameAll::Lower), deny: Deny::No, validate: Validate::No, variants: vs },
+    );
+    b.program("enum_tagged_self_rename", e);
+
     // tagged, as in tests/attributes/tag.rs: unit + struct-like variants, shared field names
     let variants = vec![
         VariantDef { ident: "Empty".into(), rename: None, rename_all: None, fields: None },
@@ -631,7 +649,8 @@ fn gen_fields(b: &mut Builder, rng: &mut Rng, rename_all: Option<RenameAll>, nam
         }
         if rng.chance(1, 4) {
             // rename: sometimes to a near-miss of another spelling of the same identifier
-            f.rename = Some(match rng.below(5) {
+            f.rename = Some(match rng.below(6) {
+                5 => ident.clone(),
                 0 if ident.is_ascii() => camel(&ident),
                 0 => format!("{}_r", ident.to_lowercase()),
                 1 => ident.to_uppercase(),
@@ -702,7 +721,8 @@ fn gen_variants(b: &mut Builder, rng: &mut Rng, container_rename_all: Option<Ren
             continue;
         }
         let rename = if rng.chance(1, 4) {
-            Some(match rng.below(4) {
+            Some(match rng.below(5) {
+                4 => ident.clone(),
                 0 => ident.to_uppercase(),
                 1 => ident.to_lowercase(),
                 2 => camel(&ident),
